@@ -496,6 +496,15 @@ def legal_return_programs():
                 pr = make_program(kind, family, [t])
                 if not evaluate(pr) and pr not in out:
                     out.append(pr)
+    # "exactly one of RETURN, LR_RETURN, THROW, LR_THROW is required" (docs/reference.md): ending with a THROW spelling is
+    # legal on every signature kind - void, value, each reference flavour, coroutine (there also CO_THROW)
+    for kind in ALLK:
+        terms = throw_variants(kind) + (co_throw_variants() if KINDS[kind].coro else [])
+        for t in terms:
+            for family in ("REQUIRE_CALL", "NAMED_ALLOW_CALL"):
+                pr = make_program(kind, family, [t])
+                if not evaluate(pr) and pr not in out:
+                    out.append(pr)
     return out
 
 def arity_programs():
